@@ -222,6 +222,10 @@ func Judge(o *reconlib.Outcome) vrun.Result {
 		if c.ConnClosedErr {
 			return vrun.Violation("an API call issued during the outage failed with a connection error instead of being sent again after recovery", "outage-call-connection-error:"+c.Name, map[string]any{"call": c})
 		}
+		if c.Name == "call-wait" && c.CtxErr && replyLostWithLink(o) {
+			// the call was delivered and acknowledged; the peer's reply was lost with the link: nothing the client can resend
+			continue
+		}
 		if c.Err != "" && c.CtxErr && fast {
 			return vrun.Violation("an API call issued during the outage was dropped: it ended with its 60 s context although the connection had recovered within 30 s", "outage-call-dropped:"+c.Name, map[string]any{"call": c, "recovery_secs": o.RecoverySecs})
 		}
@@ -240,6 +244,35 @@ func Judge(o *reconlib.Outcome) vrun.Result {
 		r.AddSet("fault_positions", fmt.Sprintf("%s/%s#%d/%v/%s", f.Trigger.Dir, f.Trigger.Class, f.Trigger.Ordinal, f.Trigger.After, f.Trigger.Mode))
 	}
 	return r
+}
+
+// replyLostWithLink: some 'wait' call's ack was read by the client but the reply the broker sent for it was never read.
+func replyLostWithLink(o *reconlib.Outcome) bool {
+	acked := map[string]bool{}
+	replied := map[string]bool{}
+	for _, li := range o.LinkInfos {
+		for _, r := range li.Log {
+			if r.Dir != memnet.S2C || !r.OK {
+				continue
+			}
+			switch m := r.Msg.(type) {
+			case *message.UpstreamCallAck:
+				acked[m.CallID] = true
+			case *message.DownstreamCall:
+				replied[m.RequestCallID] = true
+			}
+		}
+	}
+	for id := range acked {
+		if !replied[id] {
+			for _, e := range o.Ledger {
+				if uc, ok := e.Msg.(*message.UpstreamCall); ok && uc.CallID == id && uc.Name == "wait" {
+					return true
+				}
+			}
+		}
+	}
+	return false
 }
 
 // completedResumes counts the link incarnations on which the stream's resume exchange completed successfully.
